@@ -891,6 +891,205 @@ func simRegistry(term, svc, model map[string]*ast.File) {
 
 // ==== END C20/C06 addition ================================================================================
 
+// ==== T3: terminal parameters (coordinator) =================================================================
+// gen_param_struct : TerminalParamDetails' ParamContent[...] fields in declaration order:
+//     (field name, id read from the name's T0xNNN prefix, kind of the type parameter)
+// gen_param_cases  : parseParam's switch in source order: (kind of the ParamContent[T] literal the clause builds, ids)
+// gen_param_assign : (id, field) for every `case id: t.<field> = x` of parseParam{DWORD,WORD,Byte,String} and every
+//     direct `t.<field> = ParamContent[..]{..}` in a clause of parseParam
+// kinds: 1 uint32, 2 uint16, 3 byte, 4 string, 5 [4]byte, 6 [8]byte, 7 []byte (unknown content), 0 other
+func paramKindOf(e ast.Expr) int {
+	ix, ok := e.(*ast.IndexExpr)
+	if !ok {
+		return -1
+	}
+	if id, ok := ix.X.(*ast.Ident); !ok || id.Name != "ParamContent" {
+		return -1
+	}
+	switch t := ix.Index.(type) {
+	case *ast.Ident:
+		switch t.Name {
+		case "uint32":
+			return 1
+		case "uint16":
+			return 2
+		case "byte", "uint8":
+			return 3
+		case "string":
+			return 4
+		}
+	case *ast.ArrayType:
+		if t.Len == nil {
+			return 7
+		}
+		if n, ok := intOf(t.Len, nil); ok && n == 4 {
+			return 5
+		} else if ok && n == 8 {
+			return 6
+		}
+	}
+	return 0
+}
+
+func paramTable(model map[string]*ast.File) {
+	// --- the struct
+	var rows []string
+	found := false
+	for _, f := range model {
+		ast.Inspect(f, func(n ast.Node) bool {
+			ts, ok := n.(*ast.TypeSpec)
+			if !ok || ts.Name.Name != "TerminalParamDetails" {
+				return true
+			}
+			st, ok := ts.Type.(*ast.StructType)
+			if !ok {
+				return true
+			}
+			found = true
+			for _, fl := range st.Fields.List {
+				k := paramKindOf(fl.Type)
+				if k < 0 {
+					continue
+				}
+				for _, nm := range fl.Names {
+					id := int64(-1)
+					if len(nm.Name) >= 6 && strings.HasPrefix(nm.Name, "T0x") {
+						if v, err := strconv.ParseInt(nm.Name[3:6], 16, 64); err == nil {
+							id = v
+						}
+					}
+					if id < 0 {
+						fail("param_struct", "field without T0xNNN prefix: "+nm.Name)
+						id = 0
+					}
+					rows = append(rows, fmt.Sprintf("(%q%%string, %d, %d)", nm.Name, id, k))
+				}
+			}
+			return false
+		})
+	}
+	if !found {
+		fail("param_struct", "TerminalParamDetails not found")
+		return
+	}
+	fmt.Fprintf(&out, "Definition gen_param_struct : list (string * N * N) := [%s].\n", strings.Join(rows, "; "))
+	// --- parseParam
+	fd := findFunc(model, "TerminalParamDetails", "parseParam")
+	if fd == nil {
+		fail("param_cases", "parseParam not found")
+		return
+	}
+	var sw *ast.SwitchStmt
+	for _, st := range fd.Body.List {
+		if s, ok := st.(*ast.SwitchStmt); ok {
+			sw = s
+		}
+	}
+	if sw == nil {
+		fail("param_cases", "no switch")
+		return
+	}
+	var cases, assigns []string
+	fieldOfAssign := func(a *ast.AssignStmt) string {
+		if len(a.Lhs) != 1 {
+			return ""
+		}
+		if se, ok := a.Lhs[0].(*ast.SelectorExpr); ok {
+			if id, ok := se.X.(*ast.Ident); ok && id.Name == "t" {
+				return se.Sel.Name
+			}
+		}
+		return ""
+	}
+	for _, c := range sw.Body.List {
+		cc := c.(*ast.CaseClause)
+		if cc.List == nil {
+			continue // default: unknown content
+		}
+		var ids []int64
+		for _, e := range cc.List {
+			v, ok := intOf(e, nil)
+			if !ok {
+				fail("param_cases", "case value")
+				return
+			}
+			ids = append(ids, v)
+		}
+		kind := -1
+		direct := ""
+		for _, st := range cc.Body {
+			ast.Inspect(st, func(n ast.Node) bool {
+				if cl, ok := n.(*ast.CompositeLit); ok {
+					if k := paramKindOf(cl.Type); k >= 0 && kind < 0 {
+						kind = k
+					}
+				}
+				return true
+			})
+			if a, ok := st.(*ast.AssignStmt); ok && a.Tok == token.ASSIGN {
+				if f := fieldOfAssign(a); f != "" {
+					direct = f
+				}
+			}
+		}
+		if kind < 0 {
+			fail("param_cases", "clause without ParamContent literal")
+			return
+		}
+		cases = append(cases, fmt.Sprintf("(%d, %s)", kind, nlist(ids)))
+		if direct != "" {
+			for _, id := range ids {
+				assigns = append(assigns, fmt.Sprintf("(%d, %q%%string)", id, direct))
+			}
+		}
+	}
+	fmt.Fprintf(&out, "Definition gen_param_cases : list (N * list N) := [%s].\n", strings.Join(cases, "; "))
+	for _, fn := range []string{"parseParamDWORD", "parseParamWORD", "parseParamByte", "parseParamString"} {
+		f := findFunc(model, "TerminalParamDetails", fn)
+		if f == nil {
+			fail("param_assign", fn+" not found")
+			return
+		}
+		var s2 *ast.SwitchStmt
+		for _, st := range f.Body.List {
+			if s, ok := st.(*ast.SwitchStmt); ok {
+				s2 = s
+			}
+		}
+		if s2 == nil {
+			fail("param_assign", fn+": no switch")
+			return
+		}
+		for _, c := range s2.Body.List {
+			cc := c.(*ast.CaseClause)
+			if cc.List == nil {
+				continue
+			}
+			field := ""
+			if len(cc.Body) == 1 {
+				if a, ok := cc.Body[0].(*ast.AssignStmt); ok && a.Tok == token.ASSIGN {
+					field = fieldOfAssign(a)
+				}
+			}
+			if field == "" {
+				fail("param_assign", fn+": clause is not a single field assignment")
+				return
+			}
+			for _, e := range cc.List {
+				v, ok := intOf(e, nil)
+				if !ok {
+					fail("param_assign", fn+": case value")
+					return
+				}
+				assigns = append(assigns, fmt.Sprintf("(%d, %q%%string)", v, field))
+			}
+		}
+	}
+	fmt.Fprintf(&out, "Definition gen_param_assign : list (N * string) := [%s].\n\n", strings.Join(assigns, "; "))
+}
+
+// ==== END T3 ==================================================================================================
+
 func main() {
 	repo := flag.String("repo", "/repo", "repository root")
 	outp := flag.String("out", "", "output .v file")
@@ -910,6 +1109,7 @@ func main() {
 	replyRegistry(svc, model)
 	constants(*repo)
 	simRegistry(parseDir(filepath.Join(*repo, "terminal")), svc, model) // C20/C06 addition
+	paramTable(model)
 	q := make([]string, len(unrecognised))
 	for i, u := range unrecognised {
 		q[i] = strconv.Quote(u) + "%string"
